@@ -211,15 +211,15 @@ impl Check for C18 {
         let mut out = vec![];
         let neutral = Named { names: Names::both('s', "sw"), kind: Kind::Switch, hidden: false, ty: Ty::Os, adjacent: false };
         for (it, vars) in items(seed) {
-            out.push(Unit { level: Level { named: vec![it.clone()], tail: Tail::None, version: None }, len: tier.pick(3, 4), vars: vars.clone() });
-            out.push(Unit { level: Level { named: vec![neutral.clone(), it.clone()], tail: Tail::Pos(vec![PosItem { kind: PosKind::Opt, strict: Strict::Any }]), version: None }, len: tier.pick(2, 3), vars: vars.clone() });
+            out.push(Unit { level: Level { named: vec![it.clone()], tail: Tail::None, version: None, usage_fallback: false }, len: tier.pick(3, 4), vars: vars.clone() });
+            out.push(Unit { level: Level { named: vec![neutral.clone(), it.clone()], tail: Tail::Pos(vec![PosItem { kind: PosKind::Opt, strict: Strict::Any }]), version: None, usage_fallback: false }, len: tier.pick(2, 3), vars: vars.clone() });
         }
         // two env-backed items sharing nothing
         for k1 in [Kind::Switch, Kind::ArgReq, Kind::ArgMany] {
             for k2 in [Kind::ReqFlag, Kind::ArgOpt, Kind::ArgFallback] {
                 let a = Named { names: Names::both('a', "alpha").env(VA), kind: k1, hidden: false, ty: Ty::Os, adjacent: false };
                 let b = Named { names: Names::both('b', "beta").env(VB), kind: k2, hidden: false, ty: Ty::U32, adjacent: false };
-                out.push(Unit { level: Level { named: vec![a, b], tail: Tail::None, version: None }, len: tier.pick(2, 3), vars: vec![VA.to_string(), VB.to_string()] });
+                out.push(Unit { level: Level { named: vec![a, b], tail: Tail::None, version: None, usage_fallback: false }, len: tier.pick(2, 3), vars: vec![VA.to_string(), VB.to_string()] });
             }
         }
         out.into_iter().map(|u| serde_json::to_value(u).unwrap()).collect()
